@@ -162,20 +162,23 @@ def replay_test_source(ent, modname, inputs):
     return "\n".join(lines) + "\n"
 
 
-def _forget_artifacts(cache, scratch):
-    """the artefacts of a scratch path are keyed by a hash of that path and would pile up in the shared target directories"""
+def _forget_artifacts(cache, scratch, since):
+    """the artefacts of a scratch path are keyed by a hash of that path and would pile up in the shared target directories; the scratch
+    path itself is only recorded inside the binaries (crate metadata / debug info), so those written since `since` are searched for it"""
+    needle = (scratch + "/").encode()
     try:
         for root, dirs, files in os.walk(cache):
             for f in files:
-                if not (f.startswith("rdp-") and f.endswith(".d")):
+                m = re.match(r"^(?:librdp-([0-9a-f]{16})\.rmeta|rdp-([0-9a-f]{16}))$", f)
+                if not m:
                     continue
                 p = os.path.join(root, f)
                 try:
-                    if scratch + "/" not in open(p, errors="replace").read():
+                    if os.path.getmtime(p) < since - 2 or needle not in open(p, "rb").read():
                         continue
                 except OSError:
                     continue
-                h = f[4:-2]
+                h = m.group(1) or m.group(2)
                 if os.path.basename(root) == "out" and os.path.basename(os.path.dirname(root)) == h:
                     shutil.rmtree(os.path.dirname(root), ignore_errors=True)      # build/<pkg>/<hash>/{out,fingerprint}
                 else:
@@ -185,6 +188,11 @@ def _forget_artifacts(cache, scratch):
                                 os.remove(os.path.join(root, g))
                             except OSError:
                                 pass
+                    fp = os.path.join(os.path.dirname(root), ".fingerprint")
+                    if os.path.isdir(fp):
+                        for g in os.listdir(fp):
+                            if g.endswith("-" + h):
+                                shutil.rmtree(os.path.join(fp, g), ignore_errors=True)
     except Exception:
         pass
 
@@ -216,7 +224,7 @@ def _counterexample(ent, qname):
         if os.path.exists(d):
             shutil.rmtree(d)
         os.makedirs(d)
-        subprocess.check_call(["rsync", "-a", "--exclude", "target", "--exclude", ".git", REPO + "/", d + "/"])
+        subprocess.check_call(["rsync", "-a", "--exclude", "target", "--exclude", ".git", "--exclude", ".verif", REPO + "/", d + "/"])
         tf = os.path.join(d, ent["target_file"])
         modname = _mod_name(ent["module"])
         with open(tf, "a") as fh:
@@ -269,13 +277,20 @@ def _counterexample(ent, qname):
             fh.write("\n" + src)
         os.makedirs(TEST_CACHE, exist_ok=True)
         env2 = dict(os.environ, CARGO_NET_OFFLINE="true", CARGO_TARGET_DIR=TEST_CACHE, RUST_BACKTRACE="0", CARGO_INCREMENTAL="0")
+        # the native test binary has the same name in every scratch copy (cargo's hash of a workspace member does not depend on its
+        # path): build + run are serialised across processes so that a concurrent call cannot swap the binary in between
+        import fcntl
+        lock = open(os.path.join(TEST_CACHE, ".verif-cex.lock"), "w")
         try:
+            fcntl.flock(lock, fcntl.LOCK_EX)
             p2 = subprocess.run(["cargo", "test", "--offline", "--lib", "verif_replay"], cwd=d, env=env2, stdout=subprocess.PIPE, stderr=subprocess.STDOUT,
                                 timeout=max(10, deadline - time.time()))
             out2 = p2.stdout.decode("utf-8", "replace")
         except subprocess.TimeoutExpired:
             res["error"] = "native replay timeout"
             return res
+        finally:
+            lock.close()
         tname = "verif_replay_" + ent["harness"]
         ran_failed = re.search(r"test \S*%s \.\.\. FAILED" % re.escape(tname), out2) is not None
         ran_ok = re.search(r"test \S*%s \.\.\. ok" % re.escape(tname), out2) is not None
@@ -297,8 +312,7 @@ def _counterexample(ent, qname):
     finally:
         res["wall_s"] = round(time.time() - t0, 1)
         shutil.rmtree(d, ignore_errors=True)
-        _forget_artifacts(CACHE, d)
-        _forget_artifacts(TEST_CACHE, d)
+        _forget_artifacts(CACHE, d, t0)
 
 
 if __name__ == "__main__":
